@@ -775,7 +775,8 @@ def shards(tier: str) -> list:
     else:
         out += _scenario_shards(KIND_PAIRS_ALL + [(0, 5), (4, 5), (5, 5)], 2, lambda i: 0, 600)
         out += _scenario_shards(KIND_PAIRS_ALL, 2, lambda i: 1, 600)
-        out += _scenario_shards([(0, 0), (0, 2), (0, 4), (1, 3), (2, 2), (2, 4), (3, 4), (4, 4)], 3, lambda i: i % 2, 900)
+        # heaviest shard (notify || notify starting with notify response, notify data): ~2000 paths
+        out += _scenario_shards([(0, 0), (0, 2), (0, 4), (1, 3), (2, 2), (2, 4), (3, 4), (4, 4)], 3, lambda i: i % 2, 1500)
         tds = [(30, 20), (5, 50), (10, 10)]
     for t, d in tds:
         out.append({"fn": "h16c_connect_timeout", "env": {"T": t, "D": d, "NPRE": 2, "NPOST": 2}, "cond_timeout": 500,
@@ -804,6 +805,12 @@ ASSUMPTIONS = [
     "to_human_readable_address / to_human_readable_gatt_error and the message text of BluetoothGATTAPIError are replaced by constants while a path runs (they format symbolic ints); exception classes and the .error payload are checked",
     "SimLoop: real asyncio scheduler on a virtual clock",
     "notify data that matches a start_notify call before its confirmation arrived, or between its failure and the resumption of the caller, may or may not be delivered (unspecified); at most once",
+]
+# repo functions entered by shards other than the two sampled per harness function for the evidence file
+ALSO_ENCODED = [
+    "client.py:APIClient._raise_for_ble_connection_change", "client.py:APIClient.bluetooth_gatt_read_descriptor",
+    "client.py:APIClient.bluetooth_gatt_write_descriptor", "client.py:APIClient.bluetooth_gatt_start_notify",
+    "client.py:APIClient.bluetooth_gatt_start_notify.<locals>.stop_notify", "model.py:APIModelBase.from_pb",
 ]
 EXPLANATION = ("C16: oracle = independent per-operation reference model (first message of its response type with its address AND handle "
                "completes it; GATT error for address+handle => BluetoothGATTAPIError; connection response for address => "
